@@ -144,8 +144,8 @@ class PolynomialRegressor(LinearRegressor):
         # n_powers = binom(n_inputs+degree, n_inputs)+1
         powers = self._poly.powers_
         n_inputs = get_n_input_features_(self._poly)
-        n_outputs = self.algo.coef_.shape[0]
         coefs = self.get_coefficients()
+        n_outputs = coefs.shape[0]
         jac_intercept = zeros((n_outputs, n_inputs))
         jac_coefs = zeros((n_outputs, self._poly.n_output_features_, n_inputs))
 
